@@ -75,6 +75,15 @@ pub fn seeds_obs<Q: Qx>() -> Vec<W512> {
                         v.push(base.add(odd).add(t));
                         v.push(base.add(odd));
                     }
+                    // two far bits at the same offset of different 64-bit words (and one word + one bit apart): a
+                    // sticky computation that folds the lower words with anything but OR loses exactly these
+                    for gap in [64u32, 128, 192, 65] {
+                        if d2 + gap <= j {
+                            let t2 = W512::from_shifted(1, j - d2 - gap).unwrap();
+                            v.push(base.add(t).add(t2));
+                            v.push(base.add(t).add(t2).neg());
+                        }
+                    }
                 }
             }
         }
